@@ -473,10 +473,10 @@ def r5_after_cannot_teardown(ctx, rep, R='C01.R5'):
               'resume_tests is not given the list of remaining layers', key='resume:queue',
               func=fi.qualname, where=ctx.where(fi, rtcall))
     if q:
-        pops = nodes_calling(g, lambda c: isinstance(c.func, ast.Attribute) and
-                             c.func.attr in ('pop', 'remove', 'clear') and is_name(c.func.value, q))
-        pops += [n.id for n in g.nodes if n.kind == 'stmt' and isinstance(n.ast, ast.Delete) and
-                 mentions(n.ast, q)]
+        from .common import removal_nodes
+        pops = removal_nodes(g, q) + nodes_calling(
+            g, lambda c: isinstance(c.func, ast.Attribute) and c.func.attr == 'clear' and
+            is_name(c.func.value, q))
         # the only way around resume_tests is an empty queue: evaluate the guards with the queue
         # known to be non-empty and the boolean flags as set on the path
         def qatom(e):
